@@ -111,7 +111,7 @@ def class_chain(fx, cls):
 
 
 def run(res, tier):
-    fx = common.load_units(res, ['regex/QueryFilter.cpp'], fn_regex=r'QueryFilter')
+    fx = common.load_units(res, ['regex/QueryFilter.cpp'], fn_regex=r'QueryFilter|Lexer')
     res.functions_analysed = sum(1 for f in fx.funcs.values() if f.full)
     # concrete filter classes = classes created by the factory
     fac = [f for f in fx.funcs.values() if f.full and f.q == 'muscle::MuscleQueryFilterFactory::CreateQueryFilter' and any(n['k'] == 'SwitchStmt' for n in f.walk())]
@@ -139,6 +139,16 @@ def run(res, tier):
             enum = e['consts']
     if enum is None:
         raise AnalysisBroken('QUERY_FILTER_TYPE_* enum not found')
+    # ------------------------------------------------------------------------------------------- R-REC: "arbitrary strings / arbitrary archives for the must-not-crash part"
+    from msa.callgraph import CallGraph
+    from msa import reach as R
+    cg = CallGraph(fx)
+    entries = []
+    for q in ('muscle::CreateQueryFilterFromExpression', 'muscle::MuscleQueryFilterFactory::CreateQueryFilter', 'muscle::QueryFilterFactory::CreateQueryFilter'):
+        entries.extend(f.id for f in fx.fn(q, required=False, full=False))
+    if len(entries) < 2:
+        raise AnalysisBroken('R-REC: the expression / archive entry points of QueryFilter.cpp were not found')
+    R.rec_rule(res, fx, cg, entries, cg.reachable(entries), 'R-REC', anchor_files=[r'^regex/QueryFilter'])
     # ------------------------------------------------------------------------------------------- FACTORY
     res.rule('FACTORY', 'every QUERY_FILTER_TYPE_* enumerator has a case in MuscleQueryFilterFactory::CreateQueryFilter, the class created for code X returns X from TypeCode(), codes are pairwise distinct', floor=19)
     codes = {k: v for k, v in enum.items() if not k.startswith('LAST') and not k.startswith('NUM_') and k.startswith('QUERY_FILTER_TYPE_')}
